@@ -400,10 +400,88 @@ def _decorate(fn, decorators, name):
     return fn
 
 
+class ModuleState:
+    """module-level MUTABLE object of the analysed module (dict / list / set display at top level, also one an edit
+    introduces): state that SURVIVES between calls, so at the start of a call its content is whatever earlier calls left
+    there - never "fresh empty".  Reads of the content, truthiness and writes fail closed; .clear() and passing the object
+    on are allowed (a consumer such as the get_sub_seed stub decides what it may assume about it)."""
+
+    def __init__(self, name, kind):
+        self.name, self.kind = name, kind
+        self.cleared = False        # known empty on this path (after .clear())
+        self.owner = None           # ghost: the seed term whose stream get_sub_seed stored in it on this path
+
+    def clear(self):
+        self.cleared, self.owner = True, None
+
+    def _closed(self, *a, **k):
+        raise OutOfSubset('content of the module-level %s `%s` (state from earlier calls) is not modelled' % (self.kind, self.name))
+
+    __bool__ = __len__ = __iter__ = __contains__ = __getitem__ = __setitem__ = __delitem__ = __eq__ = __ne__ = _closed
+    get = setdefault = pop = popitem = update = keys = values = items = copy = append = extend = insert = remove = add = discard = _closed
+    __hash__ = object.__hash__
+
+
+class _UnmodelledValue:
+    """module-level name bound to something the contract does not model: any use fails closed"""
+
+    def __init__(self, why):
+        object.__setattr__(self, '_why', why)
+
+    def _closed(self, *a, **k):
+        raise OutOfSubset(object.__getattribute__(self, '_why'))
+
+    def __getattr__(self, k):
+        raise OutOfSubset(object.__getattribute__(self, '_why'))
+
+    __bool__ = __len__ = __iter__ = __contains__ = __getitem__ = __setitem__ = __call__ = __eq__ = __ne__ = _closed
+    __hash__ = object.__hash__
+
+
+def _immutable_literal(v):
+    if v is None or isinstance(v, (bool, int, float, complex, str, bytes)):
+        return True
+    if isinstance(v, (tuple, frozenset)):
+        return all(_immutable_literal(x) for x in v)
+    return False
+
+
+def _module_assignments(tree):
+    """{name: value} for the top-level assignments of the analysed module"""
+    import ast
+    out = {}
+    for n in tree.body:
+        if isinstance(n, ast.Assign) and len(n.targets) == 1 and isinstance(n.targets[0], ast.Name):
+            name, val = n.targets[0].id, n.value
+        elif isinstance(n, ast.AnnAssign) and isinstance(n.target, ast.Name) and n.value is not None:
+            name, val = n.target.id, n.value
+        elif isinstance(n, (ast.Assign, ast.AnnAssign, ast.AugAssign)):
+            for t in ast.walk(n):
+                if isinstance(t, ast.Name) and isinstance(t.ctx, ast.Store):
+                    out[t.id] = _UnmodelledValue('module-level assignment to %s is not modelled' % t.id)
+            continue
+        else:
+            continue
+        kind = {ast.Dict: 'dict', ast.List: 'list', ast.Set: 'set', ast.DictComp: 'dict', ast.ListComp: 'list', ast.SetComp: 'set'}.get(type(val))
+        if kind is None and isinstance(val, ast.Call) and isinstance(val.func, ast.Name) and val.func.id in ('dict', 'list', 'set', 'OrderedDict', 'defaultdict'):
+            kind = val.func.id
+        if kind is not None:
+            out[name] = ModuleState(name, kind)
+            continue
+        try:
+            v = ast.literal_eval(val)
+        except Exception:
+            out[name] = _UnmodelledValue('module-level value of %s (%s) is not modelled' % (name, ast.unparse(val)[:40]))
+            continue
+        out[name] = v if _immutable_literal(v) else _UnmodelledValue('module-level value of %s is not modelled' % name)
+    return out
+
+
 def module_env(path, target_name, extra=None):
     """every module-level function of the analysed module `path` (read from the tree), instrumented and bound so that
     the target and the inlined callees can call same-module helpers (also ones an edit introduces); `extra` = stubs that
-    replace functions / supply other globals.  Decorators are honoured through _decorate."""
+    replace functions / supply other globals.  Decorators are honoured through _decorate.  Top-level ASSIGNMENTS are bound
+    too: immutable literals concretely, mutable displays as ModuleState (state surviving between calls), the rest fails closed."""
     import ast
     from pyvc import instrument, pyspec
     extra = dict(extra or {})
@@ -411,8 +489,9 @@ def module_env(path, target_name, extra=None):
     G = pyspec.make_globals()
     G['np'] = np_module()
     G['__vc__'] = Runtime(None, None, None)
+    out = {k: v for k, v in _module_assignments(tree).items() if k not in extra}
+    G.update(out)
     G.update(extra)
-    out = {}
     for n in tree.body:
         if not isinstance(n, ast.FunctionDef):
             continue
@@ -799,12 +878,31 @@ def meta_entries(vc, s):
 
 
 def _gss_spec(vc, seed, sub_seed_index, high=HIGH, cache=None):
-    """C15's contract of elfi.utils.get_sub_seed seen from a caller: requires a non-generator seed and
+    """C15's contract of elfi.utils.get_sub_seed seen from a caller: requires a non-generator seed, cache_ok(cache) and
     0 <= index < high; returns sub_seed(seed, index) in [0, high); different indices of one seed give
     different values (C15 LemmaDistinct; instance placed for every earlier call on this path)."""
-    if isinstance(seed, RSProxy) or cache is not None:
-        vc.oblige('call-pre[get_sub_seed: seed is not a RandomState, no cache]', z3.BoolVal(False))
+    if isinstance(seed, RSProxy):
+        vc.oblige('call-pre[get_sub_seed: seed is not a RandomState]', z3.BoolVal(False))
     st, it, hi = zi(seed), zi(sub_seed_index), zi(high)
+    # cache_ok of C15: the cache is {} or holds a prefix of the stream of THIS seed
+    PRE = 'call-pre[get_sub_seed: cache is {} or a stream prefix of THIS seed]'
+    if cache is None:
+        pass
+    elif type(cache) is dict and (len(cache) == 0 or set(cache) == {'__stream_of__'}):
+        if cache:
+            vc.oblige(PRE, cache['__stream_of__'] == st)
+        cache['__stream_of__'] = st                 # ghost: filled by this call
+    elif isinstance(cache, ModuleState):
+        if cache.cleared:
+            pass
+        elif cache.owner is not None:
+            vc.oblige(PRE, cache.owner == st)
+        else:
+            vc.taint('module-level cache %s: contents from earlier calls unknown' % cache.name)
+            vc.oblige(PRE, z3.BoolVal(False), note='module-level state `%s` may hold the stream of another seed' % cache.name)
+        cache.cleared, cache.owner = False, st
+    else:
+        raise OutOfSubset('get_sub_seed cache of type %s' % type(cache).__name__)
     vc.oblige('call-pre[get_sub_seed: 0 <= index]', it >= 0)
     vc.oblige('call-pre[get_sub_seed: index < high]', it < hi)
     if not (isinstance(high, int) and high == HIGH):
